@@ -43,7 +43,8 @@ def _children_of(spec):
             out.append(('x', spec['x']))
         for c in spec.get('children', []):
             out.append(('c', c))
-        return 'N', out
+        extra = [k for k in spec if k not in ('id', 'type', 'x', 'children', 'ignore')]
+        return ('Ne' if extra else 'N'), out
     if t == 'C13Picky':
         if spec['need'] not in spec:
             raise Reject('missing-key')
